@@ -330,7 +330,15 @@ def rule_r4(ctx, rep):
             continue
         sites = []
         for (f0, call) in arm_chain(ctx, fi, arms[name]):
-            _range_sites(ctx, f0, {}, 0, sites, [f0.name])
+            # constants handed over by the arm's own call (a wrapper that used to carry them may have been dissolved)
+            env0 = {}
+            for tg in ctx.world.resolve_call(ctx.world.types(fi), call):
+                if tg.func is f0:
+                    for pn, a in ctx.world.arg_map(tg, call).items():
+                        v = prog.const(fi.module, a)
+                        if v is not UNKNOWN:
+                            env0[pn] = v
+            _range_sites(ctx, f0, env0, 0, sites, [f0.name])
         if not sites:
             rep.oblige(("R4", name, "site"), False)
             rep.add("R4", fi.qname, f"arm '{name}'", "no range report (CONTENT_EXPECTED_RANGE) is reachable from this arm", fi.loc(arms[name][0]))
@@ -374,7 +382,28 @@ def rule_r4(ctx, rep):
                 e[v] = x
             verdict = True
             res = None
-            for (g, in_body) in guards:
+            # first choice: walk the function as written -- straight-line prefix assignments (unpacked bounds, the parsed value)
+            # are executed, every enclosing test and guard clause is evaluated; the content is the literal of the float
+            from ..condeval import guard_verdict as _gv
+            nodeps = [p_ for p_ in g_fi.params if ctx.world.types(g_fi).env.get(p_) == "Node"]
+            done_gv = False
+            if nodeps:
+                pe_ = PEval(ctx.world)
+                for q_ in [m_.qname for m_ in prog.cls(RULE_Q).methods.values() if m_.kind == "static" and m_.name.startswith("is_")]:
+                    pe_.stubs[q_] = True
+                e2 = dict(e)
+                for v in valvars:
+                    e2.pop(v, None)
+                e2[nodeps[0]] = {"__obj__": True, "content": repr(x), "_content": repr(x), "name": "n", "_name": "n", "children": [], "_children": []}
+                try:
+                    gv = _gv(ctx, g_fi, pair.if_node, e2, pe_)
+                    verdict = None if isinstance(gv, tuple) else bool(gv)
+                    if isinstance(gv, tuple):
+                        res = gv
+                    done_gv = True
+                except PEvalUnsupported:
+                    done_gv = False
+            for (g, in_body) in ([] if done_gv else guards):
                 # predicate guards on the raw content (is_float(...)) hold for every numeric point
                 if any(isinstance(c, ast.Call) and not (isinstance(c.func, ast.Name) and c.func.id in ("float", "abs")) and
                        not (isinstance(c.func, ast.Attribute) and isinstance(c.func.value, ast.Name) and c.func.value.id == "math")
